@@ -70,6 +70,28 @@ def dom14_case(rng, mode, repeats):
             "allow_invalid": rng.random() < 0.3, "features": ["dom14"]}
 
 
+def exhaustive_inputs(tier):
+    """EVERY plan up to a length over the fixed domain, two objects, two first states (one of them empty);
+    thorough: also every joint action of two agents (nop included) as a one-step plan"""
+    objs = "o0 - a o1 - b"
+    names = ["o0", "o1"]
+    calls = [["mv", [x, y]] for x in names for y in names] + [["setf", [x]] for x in names] + [["tog", []]]
+    inits = ["(p o0) (z) (q o1 o0) (= (f o0) 1.0) (= (g o0 o1) -2.5) (= (h) 0.5)", ""]
+    out = []
+    for init in inits:
+        ptxt = "(define (problem prob) (:domain dom14) (:objects %s) (:init %s) (:goal (and)))" % (objs, init)
+        for k in range(1, (1 if tier == "quick" else 2) + 1):
+            for plan in itertools.product(calls, repeat=k):
+                out.append({"kind": "exhaustive-single", "mode": "single", "domain_text": DOM14, "problem_text": ptxt,
+                            "plan": [list(c) for c in plan], "allow_invalid": False, "features": ["dom14"]})
+        if tier != "quick":
+            members = calls + [["nop", []]]
+            for joint in itertools.product(members, repeat=2):
+                out.append({"kind": "exhaustive-joint", "mode": "joint", "domain_text": DOM14, "problem_text": ptxt,
+                            "plan": [[list(c) for c in joint]], "allow_invalid": False, "features": ["dom14"]})
+    return out
+
+
 T = REPO / "tests"
 SHIPPED = [
     {"name": "test_numeric_trajectory (depot, numeric)", "domain": "lisp_parsers_tests/depot_numeric.pddl",
@@ -108,6 +130,7 @@ def build_inputs(rng, tier):
         inputs.append(dom14_case(rng, rng.choice(["single", "joint"]), repeats=False))
     for _ in range(max(4, n // 10)):
         inputs.append(dom14_case(rng, rng.choice(["single", "joint"]), repeats=True))
+    inputs += exhaustive_inputs(tier)
     # the empty plan
     e = dom14_case(rng, "single", repeats=False)
     e.update(kind="empty-plan", plan=[])
@@ -251,6 +274,25 @@ def dump_has_repeat(d, vocab=None):
     return False
 
 
+def run_coqchk(rep, prop):
+    """thorough tier: the independent checker re-checks the compiled property file and everything it depends on"""
+    import subprocess
+    from ..common import COQ
+    t0 = time.time()
+    r = subprocess.run("ulimit -s unlimited 2>/dev/null; timeout 900 coqchk -silent -o -Q %s Verif Verif.Props.%s" % (COQ, prop),
+                       shell=True, capture_output=True, text=True)
+    ok = r.returncode == 0 and "type-in-type: <none>" in r.stdout and "unsafe (co)fixpoints: <none>" in r.stdout \
+        and "positivity is assumed: <none>" in r.stdout
+    rep.coverage["coqchk"] = {"ok": ok, "seconds": round(time.time() - t0, 1),
+                              "cmd": "coqchk -silent -o -Q coq Verif Verif.Props.%s" % prop}
+    rep.coverage["obligations"] = rep.coverage.get("obligations", 0) + 1
+    rep.coverage["discharged"] = rep.coverage.get("discharged", 0) + (1 if ok else 0)
+    if not ok:
+        p = write_replay(prop, "coqchk_failed", {"kind": "proof-obligation", "what": "coqchk rejected the compiled library",
+                                                  "out": (r.stdout + r.stderr)[-3000:]})
+        rep.violation(p, False)
+
+
 # ---------------------------------------------------------------- run
 def run(args):
     rep = Report(PROP, args.tier, args.seed)
@@ -349,7 +391,11 @@ def run(args):
     cov["phase_seconds"] = phases
     cov["input_distribution"] = stats
     cov["hash_seed"] = hashseed
-    cov["exhaustive"] = False
+    n_ex = sum(1 for i in inputs if i["kind"].startswith("exhaustive"))
+    cov["exhaustive"] = n_ex > 0
+    cov["exhaustive_scope"] = ("%d cases: every single-agent plan of length <= %d (and, thorough, every two-agent joint action incl. nop as a one-step plan) "
+                               "over the fixed domain's 7 ground calls with 2 objects, from a non-empty and from an empty first state; "
+                               "everything else is sampled" % (n_ex, 1 if args.tier == "quick" else 2))
     cov["float_repr_roundtrip_checked_on"] = len(ff["reprs"])
     cov["rule"] = ("(domain, problem, plan) triples: pddlgen worlds (typed domains with and/or/forall/when/numeric effects, 2-4 objects, random first states incl. "
                    "empty ones, values on and off the dyadic grid) and a fixed domain with fluents of arity 0-2 and facts of arity 0-2 (values incl. -0.0, 1e22, "
@@ -363,4 +409,6 @@ def run(args):
     rep.assumptions = ["float(repr(x)) == x re-checked on every value of this run (%d values)" % len(ff["reprs"]),
                        "ASCII names without blanks or parentheses", "the vocabulary (types, constants, predicate and function signatures) of the parsed domain is dumped from the implementation and handed to the model (domain parsing itself is C01's subject)",
                        "joint trajectories are parsed with as many executing agents as the joint actions have members"]
+    if args.tier == "thorough" and not args.replay:
+        run_coqchk(rep, PROP)
     return rep.finish()
